@@ -243,6 +243,37 @@ def _rich_values(term, env, n, maxlen):
     return [v for _, _, v in cand[:n]]
 
 
+def _leaves(v):
+    if isinstance(v, dict):
+        return [x for k in sorted(v) for x in [('k', k)] + _leaves(v[k])]
+    if isinstance(v, (list, tuple)):
+        return [x for e in v for x in _leaves(e)]
+    return [ops.canon(v)]
+
+
+def _most_different(cands, others):
+    """Among cands (largest first) the value whose scalar leaves differ most from those already
+    chosen for the other threads, restricted to candidates of at least 60 % of the largest size
+    (so that it stays rich); ties keep the larger / earlier one."""
+    if not others:
+        return cands[0]
+    big = len(ops.canon(cands[0]))
+    best, bestd = None, -1
+    for v in cands:
+        if len(ops.canon(v)) < 0.6 * big:
+            continue
+        lv = _leaves(v)
+        d = 0
+        for o in others:
+            lo = _leaves(o)
+            d += sum(1 for a, b in zip(lv, lo) if a != b) + abs(len(lv) - len(lo))
+            if ops.canon(o) == ops.canon(v):
+                d -= 1000
+        if d > bestd:
+            best, bestd = v, d
+    return best
+
+
 def _deep_bad(term, v, env):
     """v with its deepest node replaced by an ill-typed object."""
     best = None
@@ -300,12 +331,15 @@ def _sched_units(tier):
         vals, bads = [], []
         used = {}
         for nm in names:
-            rv = maxlen if isinstance(maxlen, list) else _rich_values(u.env[nm], u.env, 4, maxlen)
-            if not rv:
-                return
-            j = used.get(nm, 0)
-            used[nm] = j + 1
-            v = rv[j % len(rv)]
+            if isinstance(maxlen, list):
+                j = used.get(nm, 0)
+                used[nm] = j + 1
+                v = maxlen[j % len(maxlen)]
+            else:
+                rv = _rich_values(u.env[nm], u.env, 24, maxlen)
+                if not rv:
+                    return
+                v = _most_different(rv, vals)
             vals.append(v)
             bads.append(_deep_bad(u.env[nm], v, u.env))
         for codec in codecs:
@@ -365,16 +399,32 @@ def units(tier):
 
 def bounds(tier):
     thorough = tier == 'thorough'
+    us = units(tier)
+    n = {}
+    for u in us:
+        k = u.hkind.split(':')[0] if u.part == 'sched' else 'hist'
+        if u.part != 'sched' or u.shard[0] == 0:
+            n[k] = n.get(k, 0) + 1
     return {'tier': tier,
-            'histories': {'depth_H': 5 if thorough else 3, 'state_cap_per_unit': 96 if thorough else 48,
-                          'modules': 'families() + c18-choice/set/ext/of/leaves under %s; L1/L2 class representatives'
-                                     % ('5 environments' if thorough else 'EXPLICIT and AUTOMATIC tags'),
-                          'values_per_type': '8 / 4' if thorough else '6 / 3', 'codecs': list(CODECS)},
-            'schedules': {'P<=1': '2 threads x 1-2 ops, %d type pairs x %d kinds x 8 codecs'
-                                   % (len(PAIRS_QUICK) + (len(PAIRS_MORE) if thorough else 0), len(KINDS2)),
-                          'P<=2': '2 threads x 1 op, %d pairs x 4 kinds x 8 codecs (values of <= 40 canonical characters)' % len(PAIRS_P2) if thorough else 'not in this tier',
-                          '3 threads x 1 op': 'P<=1, 3 triples x 3 kinds x 8 codecs' if thorough else 'not in this tier',
-                          'opcode granularity': 'P<=1, 2 harnesses x 8 codecs' if thorough else 'not in this tier'}}
+            'histories': {'depth_H': 5 if thorough else 3, 'state_cap_per_module_and_codec': 96 if thorough else 48,
+                          'transition_budget': '%d x battery' % (16 if thorough else 6),
+                          'modules': n.get('hist', 0), 'codecs_per_module': list(CODECS),
+                          'module_families': 'alphabet.families() (7) + c18-choice/set/ext/of/leaves/rec under %s; '
+                                             'one L1 term per structural class and %s L2 terms, 3 types per module'
+                                             % ('5 environments' if thorough else 'EXPLICIT and AUTOMATIC tags',
+                                                'all 352' if thorough else 'one per structural class of the'),
+                          'values_per_type': '8 (families) / 4 (terms)' if thorough else '6 (families) / 3 (terms)',
+                          'passes_over_the_battery_on_one_live_specification': 'forward and reverse' if thorough
+                          else 'forward and reverse (families), forward (terms)'},
+            'schedules': {'2 threads x 1-2 ops, P<=1, line points': '%d harnesses (%d type pairs x %s x codecs)'
+                          % (n.get('p1', 0), len(PAIRS_QUICK) + (len(PAIRS_MORE) if thorough else 0), KINDS2),
+                          '2 threads x 1 op, P<=2, line points': '%d harnesses (%d pairs x %s x codecs, small values)'
+                          % (n.get('p2', 0), len(PAIRS_P2), KINDS2_P2) if thorough else 'not in this tier',
+                          '3 threads x 1 op, P<=1, line points': '%d harnesses' % n.get('t3', 0)
+                          if thorough else 'not in this tier',
+                          '2 threads x 1 op, P<=1, opcode points': '%d harnesses' % n.get('op', 0)
+                          if thorough else 'not in this tier',
+                          'horizon_points': 20000}}
 
 
 # ------------------------------------------------------------------------------------------------
